@@ -51,8 +51,7 @@ impl SourceBlockDecoder {
     loops = v_encinto.walk_loops(COMMON, 'dest@ == acc(%s, idx, verif_j as nat)' % VIEW, 'dest@ == acc(%s, idx, (d as int + verif_s as int) as nat)' % VIEW,
                                  lambda x: 'lemma_acc_push(%s, oi, %s);' % (VIEW, x))
     loops[0]['before'] = 'let ghost mut idx: Seq<int> = seq![b0]; let ghost mut ks: Seq<int> = Seq::empty(); let ghost mut gk: int = 0;'
-    loops[2]['after'] = ('proof { assert(b0 == source_tuple.2 as int && b10 == source_tuple.5 as int && a == source_tuple.1 && a1 == source_tuple.4 && d == source_tuple.0 && d1 == source_tuple.3);'
-                         ' assert(idx.len() == d + d1 && ks.len() == d1 as int); assert(enc_idx_ok(idx, ks, source_tuple, lt_symbols as int, pi_symbols as int, p1 as int)); }')
+    loops[2]['after'] = 'proof { ' + v_encinto.final_steps('lt_symbols as int', 'pi_symbols as int', 'p1 as int') + ' }'
     W, P, P1 = 'params.lt_symbols as int', 'params.pi_symbols as int', 'params.p1 as int'
     u.fn('src/decoder.rs', 'rebuild_source_symbol_into', impl='impl SourceBlockDecoder', ret='r', rules=['A1'],
          inline=[('src/constraint_matrix.rs', 'enc_indices')],
